@@ -54,7 +54,14 @@ MANIFEST = {
              "the frame loop every base column holds the result of the frame that owns it (last writer = intended frame), later frames "
              "never touching it; for a linear (affine) stacked system with injective Jacobian the zero is unique, so when the first-order "
              "path passes the equation-residual certificate the stacked-time result coincides with it (with an explicit error identity "
-             "x - x* = L (F x - F x*) for approximate zeros). PARTIAL: Newton iteration, sparse LU, convergence and floating point are "
+             "x - x* = L (F x - F x*) for approximate zeros). Deepening: `_catch_missing` touches solved-for cells only; the converse of the exit test (a norm "
+             "not below tol means some equation is violated by at least tol); one frame end to end (exit test => equations hold on an array whose "
+             "parameter rows are the object's current values and whose other cells are the input); variant pairing (`exhaust_then_last` zip: exactly "
+             "num_variants outputs, output k = data variant min(k,last) with parameter variant min(k,last)); histories of assign/copy/simulate on a "
+             "heap of model objects refine the stateless specification (every simulate sees the parameters in force); the terminal condition with "
+             "log-variables over an abstract log/exp (a window of columns is equivalent to all columns iff no log-variable of the state vector lies "
+             "outside it); the executable QMat terminator refines the Mathlib-matrix recursion (no ring-law hypothesis left); the known finding is "
+             "machine-checked on the model of the current first-order code (`finding_*`). PARTIAL: Newton iteration, sparse LU, convergence and floating point are "
              "runtime and outside the theorems; log-variables are outside the model. Tie: exact/tolerance correspondence of the model with "
              "the real evaluator, terminator, frame splitter and frame loop on every run (model input = the implementation's own compiled "
              "equations), certificate validation in exact rationals for linear models, plus an independent residual oracle on the output "
@@ -1223,7 +1230,22 @@ def compare_items(ctx: Ctx, items, replies):
     for (stream, req, impl, meta), rep in zip(items, replies):
         ctx.streams_compared[stream] = ctx.streams_compared.get(stream, 0) + 1
         short = req if len(req) < 1500 else req[:1500] + " ..."
-        if stream in ("frames", "writers", "spots", "catch"):
+        if stream == "termlog":
+            if rep == "bad-op":
+                ctx.disagree(stream, {"request": short}, "bits expected", rep); continue
+            import struct
+            mod = [struct.unpack("<d", struct.pack("<Q", int(w)))[0] for w in rep.split()]
+            if len(mod) != len(impl) or not all((a != a and b != b) or abs(a - b) <= 1e-9 * max(1.0, abs(a)) for a, b in zip(impl, mod)):
+                ctx.disagree(stream, {"request": short}, repr(impl[:6]), repr(mod[:6]))
+            else:
+                ctx.count(f"termlog:log-variable-reaches-back-{meta['loglag']}-columns")
+            continue
+        if stream == "finding":
+            parts = [parse_cells(x) for x in rep.split("|")] if "|" in rep else []
+            if len(parts) != 3 or any(len(a) != len(b) or any(abs(x - y) > 1e-9 for x, y in zip(a, b)) for a, b in zip(impl, parts)):
+                ctx.disagree(stream, {"request": req}, repr(impl), rep)
+            continue
+        if stream in ("frames", "writers", "spots", "catch", "pair", "hist"):
             if rep != impl:
                 ctx.disagree(stream, {"request": req}, impl[:400], rep[:400])
             continue
@@ -1259,6 +1281,157 @@ def compare_items(ctx: Ctx, items, replies):
                 ctx.disagree(stream, {"request": req}, repr(impl[:6]), repr(x[:6]))
             else:
                 ctx.count("simlin:agrees")
+
+
+# ---------------------------------------------------------------------------------------
+# correspondence for the glue model (IrisVerif/Model/StackedGlue.lean): variant pairing, parameters in force over histories,
+# the terminal condition with log-variables, the known finding
+# ---------------------------------------------------------------------------------------
+
+class PairMarker(Marker):
+    """records which parameter variant and which data variant meet in each pass of the loop over variants"""
+    def __init__(self, base, model, cell):
+        super().__init__(base)
+        self.model, self.cell, self.pairs = model, cell, []
+
+    def simulate_initial_guess(self, model_v, dataslate_v, plan, **kw):
+        super().simulate_initial_guess(model_v, dataslate_v, plan, **kw)
+        mi = next((j for j, v in enumerate(self.model._variants) if model_v._variants[0] is v), None)
+        x = dataslate_v.get_data_variant()[self.cell[0], dataslate_v.base_columns[0]]
+        self.pairs.append((mi, int(round(x)) - 10 if math.isfinite(x) else None))
+
+
+def with_marker(mk, fn):
+    _sim._SIMULATOR_MODULE["__c06_marker"] = mk
+    try:
+        with quiet():
+            return fn()
+    finally:
+        _sim._SIMULATOR_MODULE.pop("__c06_marker", None)
+
+
+def glue_pair_item(ctx: Ctx, rng, spec):
+    if not spec["shocks"]:
+        return []
+    nM, nD = rng.choice([1, 1, 2, 3]), rng.choice([1, 2, 3])
+    N = max(nM, rng.choice([1, 2, 3, 4]))      # fewer requested variants than model variants is rejected by the code
+    m = build_model(spec) if nM == 1 else build_model_variants(spec, nM)
+    mD = build_model(spec) if nD == 1 else build_model_variants(spec, nD)
+    if m is None or mD is None:
+        return []
+    start = make_period("Q", 8080)
+    span = start >> (start + 2)
+    db = ir.Databox.steady(mD, span)
+    sh = spec["shocks"][0]
+    db[sh][start] = [float(10 + v) for v in range(nD)] if nD > 1 else 10.0
+    mk = PairMarker(_st, m, (m.create_name_to_qid()[sh], None))
+    try:
+        with_marker(mk, lambda: m.simulate(db, span, method="__c06_marker", num_variants=N, remove_terminal=False, remove_initial=False))
+    except Exception as e:
+        ctx.count(f"pair:impl-raised:{type(e).__name__}")
+        return []
+    show = lambda x: "-" if x is None else str(x)
+    impl = " ".join(f"{k}:{show(a)}:{show(b)}" for k, (a, b) in enumerate(mk.pairs))
+    return [("pair", f"pair {N} {nM} {nD}", impl, None)]
+
+
+def glue_hist_item(ctx: Ctx, rng, spec):
+    """assign / copy / simulate on real model objects; observation = the parameter rows of the array a real simulate() call works on"""
+    m = build_model(spec)
+    if m is None or not spec["params"]:
+        return []
+    n2q = m.create_name_to_qid()
+    pnames = sorted(spec["params"], key=lambda nm: n2q[nm])
+    pq = [n2q[nm] for nm in pnames]
+    start = make_period("Q", 8080)
+    span = start >> (start + 1)
+    db = ir.Databox.steady(m, span)
+    objs = [m]
+    init = " ".join(f"{q} {rat_of_float(spec['params'][nm])}" for nm, q in zip(pnames, pq))
+    ops, obs = [], []
+    for _ in range(rng.randint(5, 10)):
+        kind = rng.weighted([("a", 4), ("s", 4), ("c", 2)])
+        i = rng.randint(0, len(objs) - 1)
+        if kind == "a":
+            nm = rng.choice(pnames); v = dy(rng, -2, 2, 3)
+            with quiet():
+                objs[i].assign(**{nm: v})
+            ops.append(f"a {i} {n2q[nm]} {rat_of_float(v)}"); obs.append("-")
+        elif kind == "c":
+            objs.append(objs[i].copy())
+            ops.append(f"c {i}"); obs.append("-")
+        else:
+            mk = Marker(_st)
+            try:
+                with_marker(mk, lambda: objs[i].simulate(db, span, method="__c06_marker", remove_terminal=False, remove_initial=False))
+            except Exception as e:
+                ctx.count(f"hist:impl-raised:{type(e).__name__}")
+                return []
+            col = mk.initial.shape[1] - 1
+            ops.append(f"s {i}")
+            obs.append(",".join(f"{q}={rat_of_float(mk.initial[q, col])}" for q in pq))
+    req = f"hist {len(pq)} " + " ".join(map(str, pq)) + f" {len(pq)} {init} {len(ops)} " + " ".join(ops)
+    return [("hist", req, " | ".join(obs), None)]
+
+
+def glue_termlog_item(ctx: Ctx, rng, spec, sc):
+    m = build_model(spec)
+    if m is None or not spec["logvars"] or not m.max_lead:
+        return []
+    from .common import float_bits
+    db, span = build_db(spec, m, dict(sc, missing={}))
+    slatable = m.slatable_for_simulate(shocks_from_data=True, stds_from_data=True, parameters_from_data=False, output_parameters=False)
+    ds = Dataslate.from_databox_for_slatable(slatable, db, tuple(span), num_variants=1)
+    f = _st.create_frames(m, ds, None)[0]
+    cols = tuple(range(f.first, f.simulation_last + 1))
+    wrt_equations = m.get_dynamic_equation_objects(kind=_eq.TRANSITION_EQUATION)
+    terminator = Terminator(m, cols, wrt_equations)
+    data = ds.get_data_variant().copy()
+    data = np.where(np.isnan(data), 0.5, data)
+    q2l = m.create_qid_to_logly()
+    for q in range(data.shape[0]):
+        if q2l.get(q):
+            data[q, :] = np.abs(data[q, :]) * np.array([1 + 0.125 * rng.randint(-3, 3) for _ in range(data.shape[1])]) + 1e-3
+    before = data.copy()
+    terminator.terminate_simulation(data)
+    sol = m._gets_solution(deviation=False); vec = m._get_dynamic_solution_vectors()
+    T = np.asarray(sol.T, dtype=float); K = np.asarray(sol.K, dtype=float).ravel()
+    toks = [(t.qid, t.shift) for t in vec.transition_variables]
+    cq, ci = vec.get_curr_transition_indexes()
+    last, L, n = cols[-1], m.max_lead, T.shape[0]
+    impl = [float(data[q, last + k]) for q in cq for k in range(1, L + 1)]
+    bits = lambda a: " ".join(str(float_bits(x)) for x in np.asarray(a, dtype=float).ravel())
+    req = (f"termlog {data.shape[0]} " + " ".join("1" if q2l.get(q) else "0" for q in range(data.shape[0]))
+           + f" {len(toks)} " + " ".join(f"{q} {s_}" for q, s_ in toks) + f" {len(cq)} " + " ".join(f"{q} {i}" for q, i in zip(cq, ci))
+           + f" {L} {last} {n} {bits(T)} {bits(K)} {before.shape[0]} {before.shape[1]} {bits(before)}")
+    maxlag = max([-s_ for q, s_ in toks if q2l.get(q)] + [0])
+    return [("termlog", req, impl, dict(loglag=maxlag + 1))]
+
+
+FINDING_PREFIX = "+ + + n v 0 0 * c 1/2 v 0 -1 v 3 0 + v 1 0 v 2 0"
+
+
+def glue_finding_item(ctx: Ctx):
+    """the corpus input of the known finding on the current code: T, K of the implementation, its first_order path, the residual of the
+    equation on it, its stacked_time path -- against the Lean theorems `finding_*` (same fixed input)"""
+    path = os.path.join(VERIF, "corpus", "C06", "linear-exogenous-path-ignored-by-first-order.json")
+    case = json.load(open(path))["case"]
+    spec, sc = case["spec"], case["scenario"]
+    m = build_model(spec)
+    db, span = build_db(spec, m, sc)
+    eqs = m.get_dynamic_equation_objects(kind=_eq.TRANSITION_EQUATION)
+    got = prefix_of_xtring(eqs[0].xtring)
+    if got != FINDING_PREFIX:
+        return [("finding-equation", "the compiled equation of the corpus model", got, None, FINDING_PREFIX)]
+    sol = m._gets_solution(deviation=False)
+    fo, _, _ = run_simulate(m, db, span, "first_order")
+    st, _, ok = run_simulate(m, db, span, "stacked_time", solver_settings={"step_tolerance": float("inf"), "max_iterations": MAX_ITER})
+    x_fo = [float(v) for v in np.asarray(fo["x"].get_data(span)).ravel()]
+    x_st = [float(v) for v in np.asarray(st["x"].get_data(span)).ravel()]
+    w = [float(v) for v in np.asarray(db["w"].get_data(span)).ravel()]
+    res = [0.5 * (x_fo[t - 1] if t else 0.0) + w[t] - x_fo[t] for t in range(len(x_fo))]
+    req = f"finding {qmat_text(np.asarray(sol.T, dtype=float))} {qmat_text(np.asarray(sol.K, dtype=float).reshape(-1, 1))}"
+    return [("finding", req, [x_fo, res, x_st], None)]
 
 
 # ---------------------------------------------------------------------------------------
@@ -1370,6 +1543,30 @@ def run(ctx: Ctx):
                 ctx.sample({"source": source_of(specs[0]), "parameterisations": [sp["params"] for sp in specs], "steps": steps})
         except Exception as e:
             ctx.count(f"history:raised:{type(e).__name__}")
+    # glue model: variant pairing, parameters in force over histories, terminal condition with log-variables, the known finding
+    for i in range(ctx.n(12, 120)):
+        rng = ctx.rng.fork(f"glue{i}")
+        try:
+            items += glue_pair_item(ctx, rng.fork("pair"), gen_spec(rng, ["lin-b", "poly-b", "solow"][i % 3]))
+            if i % 2 == 0:
+                items += glue_hist_item(ctx, rng.fork("hist"), gen_spec(rng, HISTORY_KINDS[(i // 2) % len(HISTORY_KINDS)]))
+                spec = gen_spec(rng, ["loglin-f", "rbc"][(i // 2) % 2])
+                if not spec["logvars"]:
+                    spec = gen_spec(rng, "loglin-f")
+                m_ = build_model(spec)
+                if m_ is not None:
+                    items += glue_termlog_item(ctx, rng.fork("termlog"), spec, gen_scenario(rng, spec, m_, True))
+        except Exception as e:
+            ctx.count(f"glue:raised:{type(e).__name__}")
+    try:
+        fitems = glue_finding_item(ctx)
+        for it in fitems:
+            if it[0] == "finding-equation":
+                ctx.disagree("finding-equation", {"request": it[1]}, it[2], it[4])
+            else:
+                items.append(it)
+    except Exception as e:
+        ctx.count(f"glue:finding-raised:{type(e).__name__}")
     replies = ctx.model("C06", [it[1] for it in items])
     compare_items(ctx, items, replies)
     ctx.extra["programs"] = sum(v for k, v in ctx.counts.items() if k.startswith("model:"))
